@@ -35,9 +35,20 @@ def run(prop, tier):
         "HD61202 protocol as stated in the property: data read returns the previous column then post-increments; status = busy<<7 | off<<5 and clears busy",
         "np.zeros replaced by a list-grid container contract inside get_display_buffer; `1 if not bit else 0` merged into one term by the mechanical Merge pass",
         "tracing disabled; write-trace callbacks empty",
-        "Rust lcd.rs: not decided",
+        "Rust lcd.rs: NOT proved (no Rust verifier); bounded stand-in on the compiled code only; start-line scrolling and the on/off gating of the pixel buffer differ between the two models by design of their display helpers and are not compared",
     ]
-    v.bounded = [dict(part="sc62015/core/src/lcd.rs", bound="not run", note="not decided (no Rust verifier)")]
+    from props import rust_standin as RS
+    lcd, odd = RS.lcd_vectors(tier, common.seed())
+    vec = dict(lcd=lcd, lcd_write_at_read_address=odd)
+    res = RS.run(vec, ["lcd", "lcd_write_at_read_address"])
+    keep = (v.obligations, v.discharged)
+    v.absorb(RS.reports(res, vec, ["lcd", "lcd_write_at_read_address"]), known, expect_obligations=False)
+    v.obligations, v.discharged = keep
+    nseq = 300 if tier == "quick" else 3000
+    v.bounded = [RS.summarize(res, "lcd", f"LcdController::write/read/display_buffer on the compiled crate: every write decoding (8 even low nibbles) x 256 values followed by status and data reads of both chips; "
+                                           f"{nseq} seeded random protocol sequences of 1-60 accesses over both windows and all 16 decodings (seed {common.seed()}); full-VRAM fills with the 240x32 pixel buffer compared "
+                                           "against the documented layout (both chips on, start line 0); expected read values from the real Python HD61202Controller, which the Python half proves equal to the contract"),
+                 RS.summarize(res, "lcd_write_at_read_address", "the 8 odd low nibbles x 256 values as WRITE accesses (see known finding)")]
     v.samples = [dict(obligation="wd:only-that-cell", statement="forall state, VRAM, d, k: k != page*64+col => vram'[k] == vram[k] after write_data(d)"),
                  dict(obligation="pixel[r,c]:injective", statement="the (chip,page,col,bit) feeding display cell (r,c) feeds no other cell"),
                  dict(obligation="route:write:cs1:chip0-untouched", statement="a write with chip-select RIGHT leaves the left chip's state and VRAM unchanged")]
